@@ -603,3 +603,12 @@ RULES = [
     ("C10.R6", "P1", r6_lower_rank_errors_told_apart, "'no lower rank' and 'ambiguous lower rank' are told apart"),
     ("C10.R7", "P1", r7_order_against_plain_types, "order against plain types"),
 ]
+
+
+def static_member_of_a_dependent_rank_is_selectable(ctx):
+    """C06: in a rank that mixes a value-dependent method with a plain one (crossing specificities over two arguments),
+    the plain member is selected when the dependent member's condition fails - the dependent method, inapplicable to
+    that call, does not change its outcome."""
+    from . import depgen as DG
+
+    DG.with_fallback(ctx, ("decision",), r3_skeleton_laws, configs=["static-member-of-the-rank"])
